@@ -142,8 +142,19 @@ func (s *prefixState) exec(c *ctx, op string) string {
 			return ""
 		}
 		t0 := time.Now().UnixNano()
-		res := watchdog(5*time.Second, func() string { return guard(func() string {
-			d, err := buildMsg6(f[1:])
+		res := s.rawMsg(f[1:])
+		t1 := time.Now().UnixNano()
+		c.emit(op, fmt.Sprintf("%d %d %s", t0, t1, res))
+		return res
+	}
+	panic("bad op " + op)
+}
+
+// rawMsg builds the message described by f, runs it through the handler and formats the outcome
+func (s *prefixState) rawMsg(f []string) string {
+	return watchdog(5*time.Second, func() string {
+		return guard(func() string {
+			d, err := buildMsg6(f)
 			if err != nil {
 				return "unbuildable"
 			}
@@ -162,12 +173,8 @@ func (s *prefixState) exec(c *ctx, op string) string {
 				r = "drop-nostop"
 			}
 			return r
-		}) })
-		t1 := time.Now().UnixNano()
-		c.emit(op, fmt.Sprintf("%d %d %s", t0, t1, res))
-		return res
-	}
-	panic("bad op " + op)
+		})
+	})
 }
 
 func replayPrefix(c *ctx, ops []string) {
